@@ -189,7 +189,7 @@ PROPS = {
                   "Anonymongo.C10_equiv_walk", "Anonymongo.C10_same_keys", "Anonymongo.Ctx.run_flow", "Anonymongo.Facts_wiring",
                   "Anonymongo.C10_inj_aes", "Anonymongo.aesEncFn_eq", "Anonymongo.Siv.dec_enc"],
         extra_modules=["Anonymongo.Props.C10", "Anonymongo.Props.SrcFacts", "Anonymongo.Props.C09c"],
-        corr=["line", "misc", "sweep", "crypto"],
+        corr=["line", "misc", "sweep", "crypto", "stream"],
         statement="the ciphertext leaf is a function of (key, plaintext); injective; with an encryption function that fails the leaf is the placeholder (never the plaintext); at every leaf encrypt mode and placeholder mode take the same decision and differ only where placeholder mode replaces a string; CONCRETE: with AES-256-SIV as Tink computes it and std base64 the leaf is base64(SIV || CTR(utf8 s)) - a pure function of (key bytes, string) with no nonce, counter or process state (aesEncFn_eq) - and equal leaves mean equal plaintext bytes (C10_inj_aes, from the proved round trip)",
         partial="C10_equiv_walk lifts the leaf statement to every tree and walker state (two-configuration simulation run_flow: same keys, order, lengths; leaves equal except placeholder-string vs ciphertext of the INPUT string at that position), with field-name redaction off; --replacement reaching its setter unconditionally is the regenerated-fact obligation Facts_wiring and the CLI-vs-in-process oracle; determinism across separate processes is a property of Tink and key loading: sampled",
         trusted=["tink-go AES-SIV computes the function of Model/Siv.lean (corresponded byte for byte on fixed keys in every run, hence across processes)"],
